@@ -1,2 +1,264 @@
--- stub: replaced by the client engine driver
-def main : IO Unit := pure ()
+/-
+Line-protocol driver for the client engine (C28 two-phase commit; C30 Redis read-modify-write).
+Reply format: `<model>\t<spec>`; spec patterns: `*` anything, `a|b` alternatives, `pre*` prefix.
+
+C28 op lines (keys, regions, versions, values are decimal numbers):
+  seedput k s c v            an earlier transaction (start s, commit c) put v on key k
+  seedlock k s ttl           another transaction (start s) holds a lock on k
+  txn p=<k> start=<n> cv=<n> ttl=<n> muts=<k>:<p|d>:<v>,…  regions=<k>:<r>,…
+                             defines the transaction and starts the client (blocked at RPC 0)
+  deliver | drop | lose | notleader | redeliver <i> | restart      (TwoPC.lean `Op`)
+  check <cur> | resolve <k>,<k>,…                                   resolver steps
+  get <k> <version>
+  observe                    reads every key of the transaction at its commit version; the spec
+                             column is the atomicity statement of C28 (all new or none new, and
+                             never a change of mind once settled)
+-/
+import Driver.Lib
+import NoKVModel.Base.Cfg
+import NoKVModel.Client.TwoPC
+import NoKVModel.Client.Redis
+
+open NoKV NoKV.Client Driver
+
+structure Seed where
+  key : Nat
+  commitTs : Nat
+  val : Nat
+
+structure St where
+  cfg : ClientCfg := ClientCfg.good
+  rcfg : RedisCfg := RedisCfg.good
+  store : Store := Store.empty
+  txn : Option Txn := none
+  sys : Option Sys := none
+  seeds : List Seed := []
+  decided : Option Bool := none      -- spec monitor: first settled observation (true = all new)
+  red : RState := RState.start 0 []
+
+def splitList (s : String) (sep : String) : List String :=
+  if s == "-" || s == "" then [] else s.splitOn sep
+
+def setCfg (st : St) (kv : String) : Option St :=
+  match kv.splitOn "=" with
+  | [k, v] =>
+    match k with
+    | "client.commitOrder" =>
+      if v == "primaryAlone" then some { st with cfg := { st.cfg with commitOrder := .primaryAlone } }
+      else if v == "regionGrouped" then some { st with cfg := { st.cfg with commitOrder := .regionGrouped } }
+      else none
+    | "client.primaryCommitErrStops" => do
+      let b ← boolOfString? v; pure { st with cfg := { st.cfg with primaryCommitErrStops := b } }
+    | "perc.commitNoLockRejectsRollback" => do
+      let b ← boolOfString? v; pure { st with cfg := { st.cfg with perc := ⟨b⟩ } }
+    | "redis.detectConflicts" => do
+      let b ← boolOfString? v; pure { st with rcfg := { st.rcfg with detectConflicts := b } }
+    | "redis.raftConflictFromReadTs" => do
+      let b ← boolOfString? v; pure { st with rcfg := { st.rcfg with raftConflictFromReadTs := b } }
+    | _ => none
+  | _ => none
+
+def insertNat (x : Nat) : List Nat → List Nat
+  | [] => [x]
+  | y :: ys => if x < y then x :: y :: ys else if x = y then y :: ys else y :: insertNat x ys
+
+def sortDedup (l : List Nat) : List Nat := l.foldr insertNat []
+
+/-- distinct elements in order of first appearance -/
+def firstSeen (l : List Nat) : List Nat :=
+  (l.foldl (fun acc x => if acc.contains x then acc else x :: acc) []).reverse
+
+def parseMut? (s : String) : Option Mut :=
+  match s.splitOn ":" with
+  | [k, o, v] => do
+    let k ← natOf? k; let v ← natOf? v
+    let o ← (if o == "p" then some Kind.put else if o == "d" then some Kind.del else none)
+    pure ⟨k, o, v⟩
+  | _ => none
+
+def parsePair? (s : String) : Option (Nat × Nat) :=
+  match s.splitOn ":" with
+  | [a, b] => do let a ← natOf? a; let b ← natOf? b; pure (a, b)
+  | _ => none
+
+def natsStr (l : List Nat) : String := ",".intercalate (l.map toString)
+
+def rpcStr : Rpc → String
+  | .prewrite ms => "pre:" ++ natsStr (ms.map (·.key))
+  | .commit ks => "com:" ++ natsStr ks
+
+def errsStr (l : List KErr) : String :=
+  if l.isEmpty then "ok" else "err:" ++ ",".intercalate (l.map KErr.str)
+
+/-- store-side result of an RPC, as the gate in the harness classifies the response -/
+def rpcResult (c : ClientCfg) (t : Txn) (rpc : Rpc) (s : Store) : String :=
+  match rpc with
+  | .prewrite ms => errsStr (prewrite t.start t.ttl ms s).2
+  | .commit ks => let e := (commit c.perc t.start t.cv ks s).2; if e = .ok then "ok" else "err:" ++ e.str
+
+/-- spec-level committed map before the transaction: newest seed with commit ts ≤ v -/
+def seedVal (seeds : List Seed) (k v : Nat) : Option Nat :=
+  let cands := seeds.filter (fun s => s.key = k ∧ s.commitTs ≤ v)
+  (cands.foldl (fun (best : Option Seed) s =>
+      match best with
+      | none => some s
+      | some b => if b.commitTs < s.commitTs then some s else some b) none).map (·.val)
+
+def optStr : Option Nat → String
+  | some v => s!"val:{v}" | none => "notfound"
+
+/-- all strings `k=<alt>` joined by spaces, one alternative per key, as a list of full lines -/
+def combos : List (List String) → List String
+  | [] => [""]
+  | alts :: rest =>
+    let tails := combos rest
+    alts.foldr (fun a acc => (tails.map (fun t => if t == "" then a else a ++ " " ++ t)) ++ acc) []
+
+def dedupStr (l : List String) : List String :=
+  l.foldr (fun x acc => if acc.contains x then acc else x :: acc) []
+
+/-- C28 on one observation: every key shows the transaction's write, or none does.  A deleted key
+    that was absent before cannot tell the two apart; an older value may also read as absent
+    (that is C17's rollback-record finding, not a 2PC matter), so "old" admits both. -/
+def observeSpec (st : St) (t : Txn) (obs : List (Mut × GetRes)) : String × Option Bool :=
+  if obs.any (fun p => p.2 = .locked) then ("*", st.decided)
+  else
+    let newLine := " ".intercalate (t.muts.map fun m => s!"{m.key}=" ++ optStr m.dataVal)
+    let oldAlts := t.muts.map fun m =>
+      let old := seedVal st.seeds m.key t.cv
+      let alts := dedupStr [s!"{m.key}=" ++ optStr old, s!"{m.key}=notfound"]
+      -- a put key must not show the new value in the "none" outcome
+      alts.filter (fun a => !(m.kind = .put && a == s!"{m.key}=" ++ optStr m.dataVal))
+    let oldLines := combos oldAlts
+    let discriminating := t.muts.any (fun m => m.kind = .put)
+    let allNew := obs.all (fun p => decide (p.2 = (match p.1.dataVal with | some v => GetRes.val v | none => GetRes.notFound)))
+    let now : Option Bool := if discriminating then some allNew else none
+    let allowed : List String :=
+      match st.decided with
+      | some true => [newLine]
+      | some false => oldLines
+      | none => newLine :: oldLines
+    ("|".intercalate (dedupStr allowed), match st.decided with | some d => some d | none => now)
+
+def statusOf (y : Sys) : String := "st=" ++ y.status.str
+
+def withSys (st : St) (f : Txn → Sys → St × String) : St × String :=
+  match st.txn, st.sys with
+  | some t, some y => f t y
+  | _, _ => (st, "no-txn\t*")
+
+def stepOp (st : St) (t : Txn) (y : Sys) (op : Op) (desc : String) : St × String :=
+  let y' := step st.cfg t y op
+  ({ st with sys := some y' }, desc ++ " " ++ statusOf y' ++ "\t*")
+
+def step' (st : St) (toks : List String) : St × String :=
+  match toks with
+  | "cfg" :: kvs =>
+    match kvs.foldlM setCfg st with
+    | some st' => (st', "ok")
+    | none => (st, "bad-cfg")
+  -- ---------------------------------------------------------------- C28
+  | ["seedput", k, s, c, v] =>
+    match natOf? k, natOf? s, natOf? c, natOf? v with
+    | some k, some s, some c, some v =>
+      let r := prewrite s 0 [⟨k, .put, v⟩] st.store
+      let r2 := commit st.cfg.perc s c [k] r.1
+      -- the spec-level map counts a seed only if it was accepted (seed lines are set-up)
+      let okSeed := r.2.isEmpty && decide (r2.2 = .ok)
+      ({ st with store := r2.1, seeds := if okSeed then ⟨k, c, v⟩ :: st.seeds else st.seeds },
+        errsStr r.2 ++ "/" ++ (if r2.2 = .ok then "ok" else "err:" ++ r2.2.str) ++ "\t*")
+    | _, _, _, _ => (st, "bad-op")
+  | "regions" :: _ => (st, "ok\t*")
+  | ["seedlock", k, s, ttl] =>
+    match natOf? k, natOf? s, natOf? ttl with
+    | some k, some s, some ttl =>
+      let r := prewrite s ttl [⟨k, .put, 0⟩] st.store
+      ({ st with store := r.1 }, errsStr r.2 ++ "\t*")
+    | _, _, _ => (st, "bad-op")
+  | "txn" :: kvs =>
+    let r : Option Txn := do
+      let p ← (kv? kvs "p").bind natOf?
+      let s ← (kv? kvs "start").bind natOf?
+      let c ← (kv? kvs "cv").bind natOf?
+      let ttl ← (kv? kvs "ttl").bind natOf?
+      let ms ← (splitList ((kv? kvs "muts").getD "-") ",").mapM parseMut?
+      let rs ← (splitList ((kv? kvs "regions").getD "-") ",").mapM parsePair?
+      let region : Nat → Nat := fun k => ((rs.find? (fun p => p.1 = k)).map (·.2)).getD 0
+      let others := firstSeen ((ms.map (fun m => region m.key)).filter (fun r => r ≠ region p))
+      pure { primary := p, start := s, cv := c, ttl := ttl, muts := ms, region := region,
+             preOrder := others, comOrder := others }
+    match r with
+    | some t =>
+      let y := Sys.init st.store
+      let y := if (program st.cfg t).isEmpty then { y with status := .done } else y
+      ({ st with txn := some t, sys := some y, decided := none }, "ok " ++ statusOf y ++ "\t*")
+    | none => (st, "bad-op")
+  | ["deliver"] => withSys st fun t y =>
+    if y.status ≠ .running then (st, "idle " ++ statusOf y ++ "\t*") else
+    match (program st.cfg t)[y.pc]? with
+    | none => stepOp st t y .deliver "none"
+    | some rpc => stepOp st t y .deliver (rpcStr rpc ++ " " ++ rpcResult st.cfg t rpc y.store)
+  | ["lose"] => withSys st fun t y =>
+    if y.status ≠ .running then (st, "idle " ++ statusOf y ++ "\t*") else
+    match (program st.cfg t)[y.pc]? with
+    | none => stepOp st t y .lose "none"
+    | some rpc => stepOp st t y .lose (rpcStr rpc ++ " " ++ rpcResult st.cfg t rpc y.store)
+  | ["drop"] => withSys st fun t y =>
+    if y.status ≠ .running then (st, "idle " ++ statusOf y ++ "\t*") else
+    match (program st.cfg t)[y.pc]? with
+    | none => stepOp st t y .drop "none"
+    | some rpc => stepOp st t y .drop (rpcStr rpc ++ " dropped")
+  | ["notleader"] => withSys st fun t y =>
+    if y.status ≠ .running then (st, "idle " ++ statusOf y ++ "\t*") else
+    match (program st.cfg t)[y.pc]? with
+    | none => stepOp st t y .notLeader "none"
+    | some rpc => stepOp st t y .notLeader (rpcStr rpc ++ " notleader")
+  | ["redeliver", i] => withSys st fun t y =>
+    match natOf? i with
+    | some i =>
+      if i ≤ y.pcMax then
+        match (program st.cfg t)[i]? with
+        | none => stepOp st t y (.redeliver i) "none"
+        | some rpc => stepOp st t y (.redeliver i) (rpcStr rpc ++ " " ++ rpcResult st.cfg t rpc y.store)
+      else stepOp st t y (.redeliver i) "none"
+    | none => (st, "bad-op")
+  | ["restart"] => withSys st fun t y =>
+    if y.status = .running then (st, "busy " ++ statusOf y ++ "\t*") else stepOp st t y .restart "restarted"
+  | ["check", cur] => withSys st fun t y =>
+    match natOf? cur with
+    | some cur =>
+      let r := checkTxnStatus t.start cur (y.store t.primary)
+      let y' := step st.cfg t y (.check cur)
+      ({ st with sys := some y' }, r.2.str ++ "\t*")
+    | none => (st, "bad-op")
+  | ["resolve", ks] => withSys st fun t y =>
+    match (splitList ks ",").mapM natOf? with
+    | some ks =>
+      let own := t.ownKeys ks
+      let n := (own.filter (fun k => match (y.store k).lock with | some l => l.ts = t.start | none => false)).length
+      let y' := step st.cfg t y (.resolve ks)
+      let out (cv : Nat) : String :=
+        let e := (resolveLock t.start cv own y.store).2
+        if e = .ok then s!"ok:{n}" else "err:" ++ e.str
+      let res := match y.learned with
+        | some (.committed cv) => if cv = 0 then "skip" else out cv
+        | some .rolledBack => out 0
+        | _ => "skip"
+      ({ st with sys := some y' }, res ++ "\t*")
+    | none => (st, "bad-op")
+  | ["get", k, v] => withSys st fun _ y =>
+    match natOf? k, natOf? v with
+    | some k, some v => (st, (get (y.store k) v).str ++ "\t*")
+    | _, _ => (st, "bad-op")
+  | ["observe"] => withSys st fun t y =>
+    let obs := t.muts.map fun m => (m, get (y.store m.key) t.cv)
+    let line := " ".intercalate (obs.map fun p => s!"{p.1.key}=" ++ p.2.str)
+    let (spec, dec) := observeSpec st t obs
+    ({ st with decided := dec }, line ++ "\t" ++ spec)
+  -- ---------------------------------------------------------------- C30
+  | _ =>
+    match redisStep st.rcfg st.red toks with
+    | some (r, out) => ({ st with red := r }, out)
+    | none => (st, "bad-op")
+
+def main : IO Unit := Driver.loop ({} : St) step'
